@@ -7,14 +7,18 @@ PROPS["C15"] = dict(
                "the corresponding soft reset (ResetPeer soft in|out|both, one peer or all) or ROUTE-REFRESH from the speaker(s) follows, then the same reset "
                "once more; run B = fresh daemon with P2 in force before the first route. At exact quiescence Loc-RIB (global and per route-server client, "
                "path sets, attributes, best flag), ADJ_IN raw and with filtered flags, ADJ_OUT and every speaker's accumulated wire view must be identical; "
-               "in 30% of the pairs the speakers keep announcing/replacing/withdrawing from their own goroutines (with scheduler yields at gobgp's lock-free "
-               "points) while the change and/or the reset run and B is fed with the final route set. Exploration: (P1, P2, routes, reset, schedule) are sampled.",
+               "in ~30% of the pairs (50% of the ROUTE-REFRESH pairs, where the refresh is asked six times) the speakers keep announcing/replacing/"
+               "withdrawing from their own goroutines (with scheduler yields at gobgp's lock-free points) while the change and/or the reset run and B is "
+               "fed with the final route set. Exploration: (P1, P2, routes, reset, schedule) are sampled; quick 480 pairs, thorough 14400.",
     level_note="Run B (gobgp itself under P2 from the start) is the reference: that a fresh evaluation applies the policy correctly is C10, that the "
                "Loc-RIB picks the right best path is C03. Route timestamps are made irrelevant: all routes of a run arrive at one virtual instant and the "
                "generated routes are totally ordered by the decision process (unique first AS per source, import prepend only of the left-most AS unless "
                "always-compare-med). For a reset aimed at one peer the change is confined to that peer (per-client assignment of a route-server client, "
                "or statements guarded by a neighbour set holding only that peer). A peer whose wire view already differs from gobgp's fresh ADJ_OUT "
-               "before the change (run A) or in run B (that is property C01, counted under precondition_*) is left out of the wire comparison.",
+               "before the change (run A) or in run B (that is property C01, counted under precondition_*) is left out of the wire comparison. In racing "
+               "pairs the export policies for ordinary peers do not test AS_PATH (see c15:...:export-tests-as-path: gobgp judges an old best path by its "
+               "stored, not its advertised attributes, which would blur every racing comparison). The read-back of the objects touched by the change must "
+               "agree between run A and run B, otherwise the pair is inconclusive (harness model of the change API).",
     technique="runtime metamorphic monitor: state after (policy change + soft reset / route refresh) vs fresh daemon under the new policy, plus idempotence "
               "monitor on the repeated reset (views unchanged, every UPDATE a plain re-advertisement), at exact quiescence in virtual time",
     rule="case = one (topology, routes, P1, change, reset) pair: P1 = 6-7 defined sets per direction (prefix sets with mask ranges, neighbour, AS-path "
